@@ -1,5 +1,7 @@
+pub mod account;
 pub mod backend;
 pub mod c04;
+pub mod c06c10;
 pub mod c09;
 pub mod c14;
 pub mod c15;
@@ -7,6 +9,7 @@ pub mod c18;
 pub mod c20;
 pub mod crash;
 pub mod crashchecks;
+pub mod decoder;
 pub mod driver;
 pub mod faultchecks;
 pub mod dyntab;
@@ -21,7 +24,9 @@ pub mod tape;
 pub fn all_checks() -> Vec<Box<dyn driver::Check>> {
     vec![
         Box::new(c04::C04),
+        Box::new(c06c10::C06),
         Box::new(c09::C09),
+        Box::new(c06c10::C10),
         Box::new(c14::C14),
         Box::new(c15::C15),
         Box::new(c18::C18),
